@@ -228,7 +228,7 @@ loop:
 		}
 		return ftoken(f), len(s)
 	}
-	n, err := strconv.ParseInt(s, 0, 64)
+	n, err := strconv.ParseInt(s, 10, 64)
 	if err != nil {
 		return token{}, -1
 	}
